@@ -194,6 +194,20 @@ def encode_file(f):
     return E.encode_v3(tm, chunks, blocks, fill1=fl[0], fill2=fl[1], fill3=fl[2], more_fill=fl[3])
 
 
+def reader_of(rnd, blob):
+    """the dump as a caller may hand it over: in memory, behind a buffered reader (small / large buffer), a file on disk"""
+    r = rnd.random()
+    if r < 0.55:
+        return io.BytesIO(blob)
+    if r < 0.8:
+        return io.BufferedReader(io.BytesIO(blob), buffer_size=rnd.choice([16, 64, 4096, 65536]))
+    import tempfile
+    f = tempfile.TemporaryFile()
+    f.write(blob)
+    f.seek(0)
+    return f
+
+
 def public(f):
     return {k: v for k, v in f.items() if not k.startswith('_')}
 
@@ -221,7 +235,7 @@ def tables(tp, pn):
     return ([[atid(k), apid(v)] for k, v in sorted(tp.items())], [[apid(k), v] for k, v in sorted(pn.items())])
 
 
-def parse_history(files, via='kdbuf'):
+def parse_history(files, via='kdbuf', rnd=None):
     """Parse the files in order on ONE pair of tables.  via: 'kdbuf' (one KdBufParser object), 'fresh' (new
     KdBufParser per file on shared dicts - what PyKdebugParser does), 'api' (PyKdebugParser.kevents + os_log_events)."""
     from pykdebugparser.kd_buf_parser import KdBufParser
@@ -236,15 +250,21 @@ def parse_history(files, via='kdbuf'):
     if via == 'preopen':      # every parse is OPENED first (generators created), then they are read one after the other
         kp = KdBufParser(tp, pn)
         pre = [kp.parse(io.BytesIO(encode_file(f)[0])) for f in files]
+    import random as _random
+    rnd = rnd or _random.Random(len(files))
+    _bio = io.BytesIO
+
+    def BytesIO_(b):
+        return reader_of(rnd, b)
     for fi, f in enumerate(files):
         blob, layout = encode_file(f)
         index = {independent_decode(r): i + 1 for i, r in enumerate(f['_recs'])}
         p = {'file': public(f)}
         try:
             if via == 'api':
-                items = list(api.kevents(io.BytesIO(blob))) + list(api.os_log_events(io.BytesIO(blob)))
+                items = list(api.kevents(BytesIO_(blob))) + list(api.os_log_events(BytesIO_(blob)))
                 k2 = KdBufParser({}, {})
-                list(k2.parse(io.BytesIO(blob)))
+                list(k2.parse(BytesIO_(blob)))
                 p['meta'] = meta_of(k2)
             elif via == 'preopen':
                 items = list(pre[fi])
@@ -252,7 +272,7 @@ def parse_history(files, via='kdbuf'):
             else:
                 if via == 'fresh':
                     kp = KdBufParser(tp, pn)
-                items = list(kp.parse(io.BytesIO(blob)))
+                items = list(kp.parse(BytesIO_(blob)))
                 p['meta'] = meta_of(kp)
             p['yields'] = [project_item(it, index) for it in items]
         except Exception as ex:
